@@ -79,13 +79,21 @@ struct Shape {
     for (auto &x : d) { lb += " " + g17(x.lower); ub += " " + g17(x.upper); w += " " + g17(x.width); }
     return lb + "\n" + ub + "\n" + w + "\n";
   }
-  // a different definition for the same variables (target grids that must be re-shaped by the file)
-  std::string other_conf() const
+  // a different definition for the same variables (target grids that must be re-shaped by the file): the dimensions
+  // in `mask` differ from the source, the others are identical to it.  `how`: 0 lower boundary, width and size differ;
+  // 1 only the upper boundary (one more point); 2 only the width (same interval, twice the points)
+  std::string other_conf(int mask, int how) const
   {
     std::string lb = "lowerBoundary", ub = "upperBoundary", w = "width";
-    for (auto &x : d) {
-      double l = x.lower + 0.5, wd = 0.25;
-      lb += " " + g17(l); ub += " " + g17(l + (x.n + 1) * wd); w += " " + g17(wd);
+    for (size_t i = 0; i < d.size(); i++) {
+      DimOpt const &x = d[i];
+      double l = x.lower, u = x.upper, wd = x.width;
+      if (mask & (1 << i)) {
+        if (how == 0) { l = x.lower + 0.5; wd = 0.25; u = l + (x.n + 1) * wd; }
+        else if (how == 1) { u = x.lower + (x.n + 1) * x.width; }
+        else { wd = 0.5 * x.width; }
+      }
+      lb += " " + g17(l); ub += " " + g17(u); w += " " + g17(wd);
     }
     return lb + "\n" + ub + "\n" + w + "\n";
   }
@@ -243,13 +251,22 @@ static void state_stream_format(std::ostream &os, bool general)
 static void fail(Ctx &c, int gc, int f, Shape const &s, int pat, std::string const &what, std::string const &extra)
 {
   std::string sig = std::string("C15:io:") + fmt_name[f] + ":" + gc_name[gc] + ":" + what;
+  int const full = (1 << s.d.size()) - 1;
+  if (g_target_mask && g_target_mask != full)
+    sig += (g_target_mask & (1 << (s.d.size() - 1))) ? "/target-differs-in-a-subset-of-dimensions" : "/target-differs-in-non-last-dimensions-only";
   c.r->violation(sig, "{\"format\":\"" + std::string(fmt_name[f]) + "\",\"grid_class\":\"" + gc_name[gc] + "\",\"shape\":" + s.json() +
-                          ",\"grid_config\":\"" + jesc(s.conf()) + "\",\"data_pattern\":" + std::to_string(pat) + extra + "}");
+                          ",\"grid_config\":\"" + jesc(s.conf()) + "\",\"data_pattern\":" + std::to_string(pat) +
+                          ",\"target_mask\":" + std::to_string(g_target_mask) +
+                          (g_target_mask ? ",\"target_grid_config\":\"" + jesc(s.other_conf(g_target_mask, (g_target_mask + pat) % 3)) + "\"" : std::string()) + extra + "}");
 }
 
 // One round trip.  T = size_t for count grids, double otherwise.
-static void one_case(Ctx &c, Shape const &s, int gc, int f, int pat)
+// target_mask: for the "other-shape" restart paths, the set of dimensions in which the fresh target grid differs from
+// the source (every non-empty subset is enumerated); 0 for the other paths.
+static int g_target_mask = 0;
+static void one_case(Ctx &c, Shape const &s, int gc, int f, int pat, int target_mask = 0)
 {
+  g_target_mask = target_mask;
   Result &r = *c.r;
   vproxy &px = *c.px;
   std::vector<colvar *> cvs = get_cvs(s);
@@ -351,7 +368,7 @@ static void one_case(Ctx &c, Shape const &s, int gc, int f, int pat)
   std::string rerr;
 
   auto new_target = [&](bool use_other) {
-    std::string const tconf = use_other ? s.other_conf() : conf;
+    std::string const tconf = use_other ? s.other_conf(target_mask, (target_mask + pat) % 3) : conf;
     if (is_count || with_samples) cnt2.reset(new colvar_grid_count(cvs, tconf));
     if (gc == G_SCALAR || gc == G_SCALAR_SAMPLES) sc2.reset(new colvar_grid_scalar(cvs, nullptr, false, tconf));
     if (gc == G_GRADIENT) gr2.reset(new colvar_grid_gradient(cvs, nullptr, nullptr, tconf));
@@ -489,7 +506,7 @@ static void one_case(Ctx &c, Shape const &s, int gc, int f, int pat)
   rerr = px.errtxt;
   cvm::clear_error();
 
-  r.seen("nontrivial", fnv(s.json() + "|" + gc_name[gc] + "|" + fmt_name[f] + "|" + std::to_string(pat)));
+  r.seen("nontrivial", fnv(s.json() + "|" + gc_name[gc] + "|" + fmt_name[f] + "|" + std::to_string(pat) + "|" + std::to_string(target_mask)));
   std::string outcome = bad.empty() ? (read_failed ? "read-error-only" : "ok") : bad[0];
   r.seen("outcomes", std::string(fmt_name[f]) + outcome);
   std::string const wr = written.size() > 1500 ? written.substr(0, 1500) + "..." : written;
@@ -511,7 +528,8 @@ static void one_case(Ctx &c, Shape const &s, int gc, int f, int pat)
       std::string sig = flags_lost ? "C15:io:restart-form:periodic-flag-lost/parameters-written-with-6-digits"
                                    : "C15:io:restart-form:boundaries-and-widths-differ/parameters-written-with-6-digits";
       c.r->violation(sig, "{\"format\":\"" + std::string(fmt_name[f]) + "\",\"grid_class\":\"" + gc_name[gc] + "\",\"shape\":" + s.json() +
-                          ",\"grid_config\":\"" + jesc(s.conf()) + "\",\"data_pattern\":" + std::to_string(pat) + more + "}");
+                          ",\"grid_config\":\"" + jesc(s.conf()) + "\",\"data_pattern\":" + std::to_string(pat) +
+                          ",\"target_mask\":" + std::to_string(target_mask) + more + "}");
     } else {
       fail(c, gc, f, s, pat, what, more);
     }
@@ -526,7 +544,7 @@ int main(int argc, char **argv)
   Args args(argc, argv);
   // --replay <file>: re-run only the (shape, grid class, format, data pattern) of the record
   bool replay = false;
-  int rp_variant = 0, rp_gc = -1, rp_f = -1, rp_pat = 0;
+  int rp_variant = 0, rp_gc = -1, rp_f = -1, rp_pat = 0, rp_mask = 0;
   std::vector<int> rp_kind, rp_n;
   if (args.replay.size()) {
     std::ifstream in(args.replay);
@@ -559,6 +577,8 @@ int main(int argc, char **argv)
       fprintf(stderr, "HARNESS-ERROR: cannot interpret replay record %s\n", args.replay.c_str()); return 2;
     }
     rp_variant = v[0]; rp_pat = pt[0];
+    { std::vector<int> mk = intfields("target_mask"); if (mk.size()) rp_mask = mk[0]; }
+    if ((rp_f == F_RST_TEXT_OTHER || rp_f == F_RST_BIN_OTHER) && rp_mask == 0) rp_mask = (1 << rp_kind.size()) - 1;
     replay = true;
     args.jobs = 1;
   }
@@ -594,7 +614,8 @@ int main(int argc, char **argv)
   std::vector<int> pats_for_tier;
   for (int p = 0; p < npat; p++) pats_for_tier.push_back(p);
 
-  long const ncases = long(shapes.size()) * G_NCLASS * F_NFORMAT * npat;
+  long ncases = 0;
+  for (auto &sh : shapes) ncases += long(G_NCLASS) * npat * ((F_NFORMAT - 2) + 2 * ((1L << sh.d.size()) - 1));
 
   // configuration: nine variables
   std::string conf;
@@ -628,7 +649,7 @@ int main(int argc, char **argv)
         s.d.push_back(make_dim((int) i, rp_kind[i], rp_n[i], rp_variant));
         s.names.push_back(cvname((int) i, rp_kind[i], rp_variant == 1));
       }
-      one_case(c, s, rp_gc, rp_f, rp_pat);
+      one_case(c, s, rp_gc, rp_f, rp_pat, rp_mask);
       delete px;
       return;
     }
@@ -637,15 +658,19 @@ int main(int argc, char **argv)
       for (int gc = 0; gc < G_NCLASS; gc++)
         for (int f = 0; f < F_NFORMAT; f++)
           for (int p : pats_for_tier) {
-            if ((idx++ % nshards) != shard) continue;
-            one_case(c, shapes[si], gc, f, p);
+            bool const other = (f == F_RST_TEXT_OTHER || f == F_RST_BIN_OTHER);
+            int const full = (1 << shapes[si].d.size()) - 1;
+            for (int mask = other ? 1 : 0; mask <= (other ? full : 0); mask++) {
+              if ((idx++ % nshards) != shard) continue;
+              one_case(c, shapes[si], gc, f, p, mask);
+            }
           }
     delete px;
   }, total, thorough ? 1100 : 170);
   if (!ok) return 2;
   total.notes.push_back("io: " + std::to_string(shapes.size()) + " shapes x " + std::to_string(int(G_NCLASS)) + " grid classes x " +
-                        std::to_string(int(F_NFORMAT)) + " formats x " + std::to_string(npat) + " data patterns = " +
-                        std::to_string(ncases) + " combinations; restart formats with an attached sample grid are not formed by the library and are counted under combos_not_applicable");
+                        std::to_string(int(F_NFORMAT)) + " formats x " + std::to_string(npat) + " data patterns (the two other-shape restart paths once per non-empty subset of "
+                        "dimensions in which the target grid differs from the source) = " + std::to_string(ncases) + " combinations; restart formats with an attached sample grid are not formed by the library and are counted under combos_not_applicable");
   if (!thorough) total.notes.push_back("io quick tier: 3-D shapes restricted to kinds {non-periodic, whole period} and the short-digit parameter alphabet");
   total.notes.push_back("io: upper boundaries are not carried by the multicolumn format (min,width,npoints only) and are not compared for the file constructor");
   write_result(args.out, "C15", args.tier, total, true);
